@@ -7,7 +7,7 @@ character-level, quoted-string aware reader (falcon's is str.split / str.partiti
 Every parsed text gets a *level*:
   STRICT  (0) grammar-valid: the oracle demands one exact answer
   LENIENT (1) not grammar-valid but with one obvious reading (empty list member, bare '*',
-              q that is a plain real number in [0, 1] but not a 3-digit qvalue, blanks round '='):
+              q that is a plain real number in [0, 1] but not a 3-digit qvalue, blanks round '=' or '/'):
               either the documented value error or the answer under that reading
   GARBAGE (2) anything else: only "no undocumented exception, result of the right type"
   REJECT  (3) the documented value errors: no type/subtype; q not a real number in [0, 1]
@@ -131,6 +131,10 @@ def _parse_one(text, is_range):
             return Parsed(REJECT, 'no-slash')
     else:
         main, sub = first.split('/', 1)
+        if main != main.strip(OWS) or sub != sub.strip(OWS):
+            # not in the grammar, one obvious reading (like blanks round '='): the error or that reading
+            worse(LENIENT, 'blank-round-slash')
+            main, sub = main.strip(OWS), sub.strip(OWS)
         if not is_token(main) or not is_token(sub):
             return Parsed(GARBAGE, 'type-not-token')
         if ('*' in main and main != '*') or ('*' in sub and sub != '*'):
@@ -201,8 +205,8 @@ def _parse_one(text, is_range):
                 else:
                     worse(GARBAGE, 'q-exotic')
             continue
-        if not is_range and lname == 'q':
-            worse(GARBAGE, 'q-on-media-type')
+        # on a media type (not a range) 'q' is a parameter like any other (RFC 9110 8.3.1: any token);
+        # a range never has a parameter called q (there it is the weight), so it is always extraneous
         params[lname] = val
     return Parsed(level, why, main, sub, params, q)
 
